@@ -93,7 +93,7 @@ pub fn run(ctx: &Ctx) {
         let rounds = want.min((budget / ops).max(8));
         MtCase { threads, rounds }
     });
-    ctx.run_prop_opts("global-mt", ctx.cases(12, 400), 24, strat, |c| match check_mt(c) {
+    ctx.run_prop_opts("global-mt", ctx.cases(12, 120), 24, strat, |c| match check_mt(c) {
         Err(f) if f.sig == "harness|galloc-timeout" => {
             ctx.inconclusive();
             Ok(CaseReport::new())
